@@ -20,6 +20,10 @@ try:
                 mod.tlaps(res, wd)
         except Exception as e:
             print("warm %s: %s" % (eng, e))
+    try:
+        stack_model(Result("C08", "quick", 1, "model_checking"), wd)
+    except Exception as e:
+        print("warm stack: %s" % e)
 finally:
     shutil.rmtree(wd, ignore_errors=True)
 print("cache warm")
